@@ -98,6 +98,8 @@ def in_documented_subset(p):
         return False
     if "^" in without_sets or "$" in without_sets:
         return False
+    if "(?" in without_sets:
+        return False        # extension notation: flags, non-capturing / named groups, look-around
     try:
         with warnings.catch_warnings():
             warnings.simplefilter("ignore")
